@@ -15,6 +15,7 @@
 //   - every other opened stream has been ended by the server ("the old stream is closed");
 //   - the server has exactly one registered listening stream (the scenario runs on its own server instance);
 //   - a further send succeeds and arrives on W and on no other stream.
+//
 // A send placed between the steps, at a moment when some stream's headers had been received and no released set-up
 // was still running, must succeed and be delivered exactly once, on a stream that no stream whose headers had been
 // received at that moment clearly follows.
@@ -57,17 +58,8 @@ type ostream struct {
 	ready    chan struct{}
 }
 
-func (e *env) begin(name string) *ostream {
-	o := &ostream{name: name, ready: make(chan struct{})}
-	o.startSeq = lclock.Add(1)
-	go func() {
-		t, err := e.open(name)
-		o.t, o.err = t, err
-		o.hdrSeq = lclock.Add(1)
-		close(o.ready)
-	}()
-	return o
-}
+// begin starts a plain GET in the background; beginAs (resume.go) one with a Last-Event-ID.
+func (e *env) begin(name string) *ostream { return e.beginAs(name, mPlain) }
 
 func (o *ostream) isReady() bool {
 	select {
@@ -488,8 +480,8 @@ func (o *ov) drainTE(rng *rand.Rand, max int) {
 	}
 }
 
-func (o *ov) openA() bool {
-	a := o.e.begin("A")
+func (o *ov) openA(m openMode) bool {
+	a := o.e.beginAs("A", m)
 	o.streams = append(o.streams, a)
 	if !a.awaitReady(20 * time.Second) {
 		o.inconclusive("stream A could not be opened")
@@ -498,7 +490,7 @@ func (o *ov) openA() bool {
 	if a.t == nil {
 		o.r.Fatal("open A: %v", a.err)
 	}
-	o.step("open A")
+	o.step("open A (%s)", a.t.mode)
 	o.midSend("after-A-alone")
 	return true
 }
@@ -506,7 +498,9 @@ func (o *ov) openA() bool {
 func stName(i int) string { return string(rune('B' + i)) }
 
 // overlapParked: [A open;] hold get.H; k GETs started, all parked at H; released in `order`.
-func overlapParked(r *vh.Run, k int, withA, serial bool, hold string, sends bool, order []int, rng *rand.Rand) {
+// `open` is the way the streams are opened: "plain", "last" (every GET carries the id of the event the session's client
+// received last) or "mixed" (seeded per stream among plain / last / stale / garbage).
+func overlapParked(r *vh.Run, k int, withA, serial bool, hold string, sends bool, open string, order []int, rng *rand.Rand) {
 	if ovViolations.Load() >= ovViolationCap {
 		r.Count("overlap_schedules_skipped_failure_established", 1)
 		return
@@ -516,21 +510,27 @@ func overlapParked(r *vh.Run, k int, withA, serial bool, hold string, sends bool
 		mode = "serial"
 	}
 	scn := fmt.Sprintf("overlap-parked|k=%d,A=%v,%s,hold=H%s,sends=%v", k, withA, mode, hold, sends)
+	if open != "plain" {
+		scn += ",open=" + open
+	}
 	o := newOv(r, scn, sched.New(12*time.Second, r.Seed))
 	defer o.close()
-	if withA && !o.openA() {
+	if withA && !o.openA(pickMode(open, rng)) {
 		return
 	}
 	o.ctl.Hold("get.H")
 	news := make([]*ostream, k)
 	for i := 0; i < k; i++ {
-		news[i] = o.e.begin(stName(i))
+		news[i] = o.e.beginAs(stName(i), pickMode(open, rng))
 		o.streams = append(o.streams, news[i])
 		if o.ctl.AwaitWaiting("get.H", i+1, 8*time.Second) < i+1 {
 			o.inconclusive("GET " + stName(i) + " did not reach get.H")
 			return
 		}
 		o.step("start %s (parked at H)", stName(i))
+	}
+	if open != "plain" && strings.Contains(hold, "T") {
+		r.Count("overlap_schedules_with_resumed_streams_parked_at_T", 1)
 	}
 	r.Max("overlap_parked_together_at_H", int64(o.ctl.MaxWaiting("get.H")))
 	if strings.Contains(hold, "T") {
@@ -610,10 +610,14 @@ func overlapWalk(r *vh.Run, idx int) {
 	withA := rng.Intn(2) == 0
 	hold := []string{"", "T", "E", "TE"}[rng.Intn(4)]
 	sends := rng.Intn(2) == 0
+	open := []string{"plain", "last", "last", "mixed", "mixed"}[rng.Intn(5)]
 	scn := fmt.Sprintf("overlap-walk|k=%d,A=%v,hold=H%s,sends=%v", k, withA, hold, sends)
+	if open != "plain" {
+		scn += ",open=" + open
+	}
 	o := newOv(r, scn, sched.New(12*time.Second, r.Seed+int64(idx)))
 	defer o.close()
-	if withA && !o.openA() {
+	if withA && !o.openA(pickMode(open, rng)) {
 		return
 	}
 	o.ctl.Hold("get.H")
@@ -635,7 +639,7 @@ func overlapWalk(r *vh.Run, idx int) {
 		c := rng.Intn(10)
 		switch {
 		case canStart && (!canRel || c < 4):
-			s := o.e.begin(stName(len(news)))
+			s := o.e.beginAs(stName(len(news)), pickMode(open, rng))
 			news = append(news, s)
 			o.streams = append(o.streams, s)
 			if o.ctl.AwaitWaiting("get.H", len(parked)+1, 8*time.Second) < len(parked)+1 {
@@ -736,7 +740,7 @@ func overlapStorm(r *vh.Run, idx, rounds int) {
 		}
 		o.startNoise()
 		for i := 0; i < k; i++ {
-			s := o.e.begin(fmt.Sprintf("r%d.%d", rd, i))
+			s := o.e.beginAs(fmt.Sprintf("r%d.%d", rd, i), stormMode(rng))
 			o.streams = append(o.streams, s)
 			all = append(all, s)
 			if d := rng.Intn(4); d > 0 {
@@ -793,14 +797,16 @@ func overlapAll(r *vh.Run) {
 				for _, serial := range []bool{true, false} {
 					for _, hold := range []string{"", "E", "TE"} {
 						for _, sends := range []bool{false, true} {
-							// k=2: both orders; k=3,4: orders rotate through the permutations from a seeded start
-							n := 1
-							if k == 2 {
-								n = 2
-							}
-							for j := 0; j < n; j++ {
-								pi = (pi + 1) % len(perms)
-								overlapParked(r, k, withA, serial, hold, sends, perms[pi], rng)
+							for _, open := range []string{"plain", "last", "mixed"} {
+								// k=2: both orders; k=3,4: orders rotate through the permutations from a seeded start
+								n := 1
+								if k == 2 {
+									n = 2
+								}
+								for j := 0; j < n; j++ {
+									pi = (pi + 1) % len(perms)
+									overlapParked(r, k, withA, serial, hold, sends, open, perms[pi], rng)
+								}
 							}
 						}
 					}
@@ -808,7 +814,7 @@ func overlapAll(r *vh.Run) {
 			}
 		}
 	}
-	for i := 0; i < r.Pick(60, 600) && (only == "" || only == "walk"); i++ {
+	for i := 0; i < r.Pick(120, 900) && (only == "" || only == "walk"); i++ {
 		overlapWalk(r, i)
 	}
 	for i := 0; i < r.Pick(4, 30) && (only == "" || only == "storm"); i++ {
